@@ -260,14 +260,14 @@ def reference_cases(ctx, real, ids, inputs):
                 exprs.append('pyv_eqb (reval %s %s %s) %s' % ('true' if k3 else 'false', L.coq_env(row, params, real.names[rid]), ce, L.coq_pyv(v)))
                 meta.append({'mode': 'reference', 'k3': k3, 'query': L.src(e), 'params': params, 'row': row, 'impl': v})
                 dist['ref_vs_coq'] += 1
-            if L.none_free(e, row, params):
+            if L.none_free(e, row, params) and not (L.hazards(e, row, params) & {'zero-division'}):
                 try:
                     want = L.plain_python(e, row, params)
                     got = L.ref(e, row, params, False)
                 except (ZeroDivisionError, L.RefError):
                     continue
                 dist['ref_vs_cpython'] += 1
-                same = (bool(got) == bool(want)) if L.ty_of(e) == 'cond' else (got == want)
+                same = (bool(got) == bool(want)) if L.ty_of(e) == 'cond' else (got == want)      # 3 == 3.0, 3.5 == 3.5
                 if not same:
                     dis.append({'what': 'the reference interpreter differs from CPython on a None-free row',
                                 'input': {'query': L.src(e), 'params': params, 'row': row}, 'impl': repr(want), 'model': repr(got)})
